@@ -50,8 +50,10 @@ def check_width(p, data):
     """p: w, right_open, vr, ref. Returns list of (clause, detail)."""
     out = []
     w, ro, refname = p["w"], p["right_open"], p["ref"]
+    if p.get("int_mode"):
+        w = int(w)      # python int width, integer-typed data (and integer value_range)
     vr = _vr(p["vr"], w)
-    data = np.array(data, dtype=float)
+    data = np.array(data, dtype=(int if p.get("int_mode") else float))
     orig = data.copy()
     s = WidthOfIntervalSlicer(w, reference=REFS[refname], right_open=ro, value_range=vr, min_n_points=0,
                               min_n_intervals=0)
@@ -171,8 +173,10 @@ def _check_drop(make, data, M, refs, bnds, eff_min_int, eff_min_pts=lambda mp: m
 def check_number(p, data):
     out = []
     w, nint, im, refname = p["w"], p["n_intervals"], p["include_max"], p["ref"]
+    if p.get("int_mode"):
+        w = int(w)
     vr = _vr(p["vr"], w)
-    data = np.array(data, dtype=float)
+    data = np.array(data, dtype=(int if p.get("int_mode") else float))
     orig = data.copy()
     s = NumberOfIntervalsSlicer(nint, reference=REFS[refname], include_max=im, value_range=vr, min_n_points=0,
                                 min_n_intervals=0)
@@ -233,7 +237,7 @@ def check_number(p, data):
 def check_points(p, data):
     out = []
     npts, lf, refname = p["n_points"], p["last_full"], p["ref"]
-    data = np.array(data, dtype=float)
+    data = np.array(data, dtype=(int if p.get("int_mode") else float))
     orig = data.copy()
     n = len(data)
     if n < npts:
@@ -350,6 +354,10 @@ def long_vectors(w, which):
 LONG_ORDERS = ["sorted", "reversed", "asdrawn", "interleave", "rot", "shuffle"]
 
 
+def int_lattice():
+    return [0, 1, 2, 3, 4]
+
+
 def run_case(case):
     kind, p = case["kind"], case["p"]
     chk = CHECKS[kind]
@@ -388,7 +396,7 @@ def run_case(case):
         d = long_vectors(p["w"], case["long"])
         one(d, case)
     else:
-        lat = lattice(p["w"])
+        lat = lattice(p["w"]) if not p.get("int_mode") else int_lattice()
         L = case["len"]
         for vec in itertools.product(lat, repeat=L):
             one(vec, {"kind": kind, "p": p, "data": list(vec)})
@@ -418,6 +426,13 @@ def main(ctx):
                 cases.append({"kind": kind, "p": p, "len": Lfull + 1})
             for o in LONG_ORDERS:
                 cases.append({"kind": kind, "p": p, "long": o})
+    # integer-typed data with integer width / range (w = 1): all vectors of length 1..3 (thorough: 4) over {0..4}
+    for kind in ("width", "number", "points"):
+        for p in configs(kind, ctx.tier):
+            if p["w"] != 1.0:
+                continue
+            for L in range(1, 4 if ctx.quick else 5):
+                cases.append({"kind": kind, "p": dict(p, int_mode=True), "len": L})
     ctx.extra["max_vector_length_all_options"] = Lfull
     ctx.extra["max_vector_length_default_reference"] = Lfull + 1
     ctx.extra["lattice_sizes"] = {str(w): len(lattice(w)) for w in WIDTHS}
